@@ -21,6 +21,15 @@ Proof. by elim: l => //= x l ->. Qed.
 Lemma vrf_appE (A : Type) (l1 l2 : seq A) : app l1 l2 = l1 ++ l2.
 Proof. by []. Qed.
 
+(* what contributeMpk records has exactly t coefficients *)
+Lemma vrf_mpk_accept_size (A : Type) (t : nat) (member already : bool) (cs : seq A) :
+  va_mpk_accept t member already (size cs) -> size cs = t.
+Proof. by rewrite /va_mpk_accept => /andP[_ /PeanoNat.Nat.eqb_spec]. Qed.
+
+Lemma vrf_accepted_polys_t (A : eqType) (t : nat) (css : seq (seq A)) :
+  all (fun cs => va_mpk_accept t true false (size cs)) css -> all (fun cs => size cs <= t)%N css.
+Proof. by move=> /allP h; apply/allP => cs csin; rewrite (vrf_mpk_accept_size (h cs csin)). Qed.
+
 Section VRFProof.
 Variable F : fieldType.
 Variables G1 G2 GT : lmodType F.
@@ -231,3 +240,22 @@ Lemma vrf_restart_empties (s : M * seq (vrf_ev G1)) (m' : M) :
 Proof. by []. Qed.
 
 End VRFHist.
+
+Lemma vrf_seed_agreement_accepted :
+  forall (F : fieldType) (G1 G2 GT : lmodType F) (g2 : G2) (M : Type) (H : M -> G1)
+         (e : G1 -> G2 -> GT) (Seed : Type) (seed_of : G1 -> Seed),
+    (forall a x y, e (a *: x) y = a *: e x y) -> (forall a x y, e x (a *: y) = a *: e x y) ->
+    (forall x y, e x g2 = e y g2 -> x = y) ->
+  forall (css : seq (seq F)) (members : seq F) (m : M) (t : nat),
+    (0 < t)%N -> 0 \notin members ->
+    all (fun cs => va_mpk_accept t true false (size cs)) css ->
+  forall (evs1 evs2 : seq (vrf_ev G1)) (s1 s2 : Seed),
+    let mpks := [seq dkg_mpk g2 cs | cs <- css] in
+    vrf_seed seed_of t (vrf_run g2 H e t mpks members m [::] evs1).1 = Some s1 ->
+    vrf_seed seed_of t (vrf_run g2 H e t mpks members m [::] evs2).1 = Some s2 ->
+    s1 = s2 /\ s1 = seed_of (dkg_sign H (dkg_gsk css) m).
+Proof.
+exact (fun F G1 G2 GT g2 M H e Seed seed_of el er ei css members m t tp nz acc =>
+         @vrf_seed_agreement F G1 G2 GT g2 M H e Seed seed_of el er ei css members m t tp nz
+                             (vrf_accepted_polys_t acc)).
+Qed.
